@@ -32,6 +32,7 @@ type c16Scenario struct {
 	RunS       int    `json:"run_s"`
 	Undeclared bool   `json:"query_names_undeclared_db"`
 	SubQuery   bool   `json:"undeclared_db_inside_a_subquery,omitempty"`
+	SecondRP   bool   `json:"undeclared_rp_of_a_declared_db_as_second_source,omitempty"`
 	FailNode   bool   `json:"downstream_node_fails"`
 	SlowMs     int    `json:"query_latency_ms"`
 	SlowFirst  int    `json:"only_the_first_n_queries_are_slow,omitempty"` // 0: every query takes query_latency_ms
@@ -65,7 +66,7 @@ func c16Gen(c *Ctx) *c16Scenario {
 			sc.TZ, sc.Cron = "Asia/Kolkata", "*/5 36,37 * * * * *"
 		}
 	} else {
-		sc.EveryS = []int{2, 1, 5, 10}[g.Intn(4)]
+		sc.EveryS = []int{2, 1, 5, 10, 7, 11}[g.Intn(6)] // (7s and 11s do not divide the distance between year 1 and 1970: "aligned" depends on the origin)
 		sc.Align = g.Bool()
 	}
 	sc.OffsetS = []int{0, 0, 1, 30}[g.Intn(4)]
@@ -75,6 +76,7 @@ func c16Gen(c *Ctx) *c16Scenario {
 	sc.RunS = g.Range(8, 45)
 	sc.Undeclared = g.Chance(1, 10)
 	sc.SubQuery = sc.Undeclared && g.Bool()
+	sc.SecondRP = sc.Undeclared && !sc.SubQuery && g.Bool()
 	if !c.FaultFree {
 		if g.Chance(1, 4) {
 			sc.FailNode = true
@@ -100,6 +102,10 @@ func c16Gen(c *Ctx) *c16Scenario {
 		db = "otherdb"
 	}
 	q := fmt.Sprintf("SELECT mean(\"v\") FROM \"%s\".\"rp\".\"m\"", db)
+	if sc.SecondRP {
+		// the first source is declared; the second names another retention policy of the same database
+		q = "SELECT mean(\"v\") FROM \"db\".\"rp\".\"m\", \"db\".\"otherrp\".\"m\""
+	}
 	if sc.Undeclared && sc.SubQuery {
 		// the undeclared database only appears inside a subquery
 		q = "SELECT mean(\"v\") FROM (SELECT max(\"v\") AS \"v\" FROM \"otherdb\".\"rp\".\"m\" GROUP BY \"host\")"
@@ -489,6 +495,7 @@ func init() {
 		ID:  "C16",
 		Run: runC16,
 		Rule: "case = a batch task with one of 7 WHERE shapes (none, AND/OR nests with and without parentheses, regex, an existing time predicate) x period 1s-1m x every 1-10s (aligned or not) or cron (also on a server whose local zone is 5h30 ahead of UTC, with a schedule that names the minute) x offset 0/1s/30s x groupBy none/time/tag/*/time+tag x fill x a seeded start phase (0-10s) x 8-45s of virtual run time, against a fake InfluxDB with seeded latency (for every query or only for the first 1-3), errors, a forward clock jump, late timers, an optionally failing downstream node, and an optionally undeclared database (named directly or inside a subquery); " +
+			"(round 3) every also 7s and 11s (which do not divide the distance between year 1 and 1970, so that 'aligned' depends on the origin), and an undeclared retention policy of a declared database as the second source of the query; " +
 			"non-trivial = at least one query was issued; distinct = distinct (scenario, interleaving signature) pairs",
 		Real:        []string{"BatchNode, QueryNode (doQuery, Queries, runBatch, stopBatch), timeTicker, cronTicker", "Query (NewQuery, Clone, Dimensions, Fill, SetStartTime/SetStopTime)", "ExecutingTask.StartBatching/BatchQueries/checkDBRPs", "TaskMaster StartTask/StopTask, edges, LogNode, AlertNode (failing node variant)", "influxql (uninstrumented) to re-parse every query the way InfluxDB would"},
 		Stub:        []string{"InfluxDB client on the existing seam: records queries with the virtual time of issue; seeded latency and errors", "libflux C stub (never called)"},
